@@ -124,7 +124,7 @@ __CPROVER_ensures(g_ss_has_recid == (recid != NULL) && (recid == NULL || g_ss_re
 unsigned int verif_nonce_calls;
 size_t g_nk;
 struct { unsigned int impl_n, counter; const unsigned char *msg32, *key32, *algo16, *out; const void *data; const secp256k1_hash_ctx *hctx;
-         unsigned char data_byte, out_byte; unsigned int st_n; int st_ret; } g_nf;
+         unsigned char data_byte, out_byte, msg_byte, key_byte; unsigned int st_n; int st_ret; } g_nf;
 #define g_nf_impl_n g_nf.impl_n
 #define g_nf_counter g_nf.counter
 #define g_nf_msg32 g_nf.msg32
@@ -135,6 +135,8 @@ struct { unsigned int impl_n, counter; const unsigned char *msg32, *key32, *algo
 #define g_nf_hctx g_nf.hctx
 #define g_nf_data_byte g_nf.data_byte
 #define g_nf_out_byte g_nf.out_byte
+#define g_nf_msg_byte g_nf.msg_byte   /* CONTENT of the message / key handed to the nonce function, at ghost index g_nk (pointer identity is not part of the property) */
+#define g_nf_key_byte g_nf.key_byte
 #define g_st_n g_nf.st_n      /* user-callback stub (harness/C01/nonce_stub.c): calls, last return value */
 #define g_st_ret g_nf.st_ret
 #ifdef NONCE_FN_EXPECT
@@ -148,7 +150,7 @@ __CPROVER_requires((algo16 == NULL || __CPROVER_r_ok(algo16, 16)) && (data == NU
 /* Call shape expected by the harness, stated as a PRECONDITION (an obligation at every call site, not an assumption): used where the
  * calls sit in a loop whose loop contract forgets ghost logs at the loop exit (secp256k1_ecdsa_anti_exfil_signer_commit).
  * g_nfx_* are set by the harness and never assigned by code or contracts. */
-__CPROVER_requires(msg32 == g_nfx_msg32 && key32 == g_nfx_key32 && algo16 == NULL && data == g_nfx_data && counter == verif_nonce_calls)   /* which hash context is used is not part of the property */
+__CPROVER_requires(g_nk < 32 && msg32[g_nk] == g_nfx_msg32[g_nk] && key32[g_nk] == g_nfx_key32[g_nk] && algo16 == NULL && data != NULL && ((const unsigned char *)data)[g_nk] == ((const unsigned char *)g_nfx_data)[g_nk] && counter == verif_nonce_calls)   /* content, not pointer identity; which hash context is used is not part of the property */
 #endif
 __CPROVER_assigns(__CPROVER_object_upto(nonce32, 32), verif_nonce_calls, g_nf)
 __CPROVER_ensures(g_st_n == __CPROVER_old(g_st_n) && g_st_ret == __CPROVER_old(g_st_ret))
@@ -156,7 +158,7 @@ __CPROVER_ensures(__CPROVER_return_value == 1)
 __CPROVER_ensures(verif_nonce_calls == __CPROVER_old(verif_nonce_calls) + 1 && g_nf_impl_n == __CPROVER_old(g_nf_impl_n) + 1)
 __CPROVER_ensures(g_nf_counter == counter && g_nf_msg32 == msg32 && g_nf_key32 == key32 && g_nf_algo16 == algo16 && g_nf_out == nonce32 && g_nf_data == data && g_nf_hctx == hash_ctx)
 __CPROVER_ensures((data != NULL && g_nk < 32) ==> g_nf_data_byte == ((const unsigned char *)data)[g_nk])
-__CPROVER_ensures(g_nk < 32 ==> g_nf_out_byte == nonce32[g_nk])
+__CPROVER_ensures(g_nk < 32 ==> (g_nf_out_byte == nonce32[g_nk] && g_nf_msg_byte == msg32[g_nk] && g_nf_key_byte == key32[g_nk]))
 ;
 #endif
 
